@@ -130,8 +130,22 @@ def readAll : R B := fun d p =>
   let x := d.drop p
   .ok (x, p + x.length)
 
-/-- `fp.read(n)` with a Python integer `n` (negative: to the end) -/
-def readPy (n : Int) : R B := if n < 0 then readAll else readUpTo n.toNat
+/-- `sys.maxsize + 1 = 2^63`: `fp.read(n)` and `fp.seek(n)` raise `OverflowError` for `n` from here on (reachable
+through the 8-byte length fields of a PSB). -/
+def pyMaxSize : Nat := 9223372036854775808
+
+/-- does a declared size / position overflow `Py_ssize_t` ? A stream of `2^63` bytes cannot exist in memory; for such
+(fictitious) streams the model keeps the idealised behaviour, so that the algebraic laws of the writer/reader pair
+need no size hypothesis while every real input is treated exactly as CPython treats it. -/
+def overflows (n : Nat) (d : B) : Prop := pyMaxSize ≤ n ∧ d.length < pyMaxSize
+
+instance (n : Nat) (d : B) : Decidable (overflows n d) := by unfold overflows; exact inferInstance
+
+/-- `fp.read(n)` with a Python integer `n` (negative: to the end; beyond `sys.maxsize`: OverflowError) -/
+def readPy (n : Int) : R B := fun d p =>
+  if n < 0 then readAll d p
+  else if overflows n.toNat d then .error .overflowError
+  else readUpTo n.toNat d p
 
 /-- `is_readable(fp, n)` (`n ≥ 1`): are `n` more bytes available in the stream? -/
 def isReadable (n : Nat) (d : B) (p : Nat) : Bool := decide (p + n ≤ d.length)
@@ -165,6 +179,8 @@ def readLenBlock (skip w pad : Nat) : R B := fun d p =>
   match readU w d p0 with
   | .error e => .error e
   | .ok (n, p1) =>
+    if overflows n d then .error .overflowError       -- `fp.read(length)`
+    else
     match readUpTo n d p1 with
     | .error e => .error e
     | .ok (x, p2) =>
